@@ -10,7 +10,7 @@ L1 = ['a', 'b', 'sp', '.', 'flD', 'flE', 'cb', 'selD', 'selE']
 L2 = ['a', 'sp', 'flD', 'flF', 'cb', 'selF', 'babD', 'olD', 'eol', 'olsF', 'eols', 'fn', 'nl']
 L3 = ['a', 'b', 'sp', 'flD', 'cb', 'fn', 'add', 'selD', 'lb', 'uk', 'ob']
 LALL = sorted(set(L1 + L2 + L3))
-OPTS = {'pack': 'xcolor,listings,amsmath,babel'}
+OPTS = {'pack': 'xcolor,listings,amsmath,babel,amsthm'}
 MAINS = ['en-GB', 'de-DE', '']
 
 
